@@ -17,7 +17,7 @@ TRUSTED = ['correspondence harness (pv.engine, pv.proto) and generators of pv.pr
 ASSUMPTIONS = ['asyncio.gather returns the results of its arguments positionally once all of them are done (model assumption; the harness '
                'drives real asyncio futures resolved in a chosen order)',
                'CPython: dict insertion order, sorted() on string keys is codepoint order, zip stops at the shortest input',
-               'only plain list/tuple/dict containers with string keys are generated; pandas/numpy branches of loops are not modelled',
+               'containers: list, tuple, namedtuple, dict with string keys, and (callx lines, laws 6-7) dicts with int / string / None keys mixed; the model has plain tuples and string keys only - callx lines are run on the implementation through a fixed bijection (every tuple a namedtuple, keys through KEYMAP) and the result, checked for its container types, is mapped back; pandas/numpy branches of loops, dict subclasses other than dict and ndarray/Series companions are not modelled and not generated',
                'the library leaf functions (str.lower, str.strip, ...) are applied by the harness to the leaf calls the model predicts; '
                'the model does not contain them']
 EXHAUSTIVE = {'quick': False, 'thorough': False}
@@ -333,6 +333,12 @@ def generate(rng, tier):
         yield gen_call(rng)
     for _ in range(400 if q else 4000):
         yield gen_call(rng, bad=0.2)
+    # the same calls on namedtuples and dicts with keys of several types (`callx`, see run_line)
+    yield dict(tag='liftx namedtuple', lines=['(lift callx %s %s (D))' % (proto.hexs(TOP), enc([('A', 'B')]))])
+    yield dict(tag='liftx mixed keys', lines=['(lift callx %s %s (D))' % (proto.hexs(TOP), enc([{'a': 'A', 'b': 'B'}, {'b': 1, 'a': 2}]))])
+    for _ in range(800 if q else 8000):
+        c = gen_call(rng, bad=0.05)
+        yield dict(tag=c['tag'].replace('lift ', 'liftx ', 1), lines=[l.replace('(lift call ', '(lift callx ', 1) for l in c['lines']])
     for _ in range(1200 if q else 12000):
         yield gen_lib(rng)
     for _ in range(1200 if q else 12000):
@@ -446,6 +452,16 @@ def run_line(state, sx):
         if enc((done2, res2)) != enc((done, res)):
             return 'ok ' + enc((done2, res2))          # lazy hand-over awaitables behave differently from plain futures: report that outcome
         return 'ok ' + enc((done, res))
+    if op == 'callx':
+        # the same call on containers the wire cannot spell: every tuple of 1..5 items is a namedtuple, dict keys are ints /
+        # strings / None mixed (KEYMAP); the result is checked for the container types and mapped back
+        a, kw = exo(proto.dec(args[1])), {n: exo(c) for n, c in proto.dec(args[2]).items()}
+        before = typed([a, kw])
+        res = lifted(rec)(*a, **kw)
+        if typed([a, kw]) != before:
+            raise AssertionError('arguments were modified')
+        same_types(a[0] if a else kw[TOP], res)
+        return 'ok ' + enc(unexo(res))
     if op == 'call':
         a, kw = proto.dec(args[1]), proto.dec(args[2])
         before = enc([a, kw])
@@ -512,6 +528,55 @@ def _matches(v, c):
     return False              # v is a leaf and c a container: the property says broadcast; keep such cases out of 'same'
 
 
+def holds_seq(c, n):
+    """a list/tuple of another length than n that holds, inside nested lists/tuples, a list/tuple of length n"""
+    return isinstance(c, (list, tuple)) and len(c) != n and any(
+        isinstance(e, (list, tuple)) and (len(e) == n or holds_seq(e, n)) for e in c)
+
+
+def holds_dict(c, keys):
+    """a dict with other keys that holds, inside nested dict values, a dict with exactly these keys"""
+    return isinstance(c, dict) and sorted(c) != keys and any(
+        isinstance(e, dict) and (sorted(e) == keys or holds_dict(e, keys)) for e in c.values())
+
+
+def searched(v, c):
+    """finding K3: somewhere on the way down `v` the companion `c` (or the part of it selected so far) is a container that does
+    NOT match the level (the statement: broadcast) but holds a matching container further inside - the code then looks inside it
+    (`_item_by_i` maps over the elements of a sequence of another length, `_item_by_key` over the values of a dict with other keys)"""
+    if not is_box(v) or not is_box(c):
+        return False
+    if isinstance(v, dict):
+        keys = sorted(v)
+        if isinstance(c, dict) and sorted(c) == keys:
+            return any(searched(v[k], c[k]) for k in v)
+        return holds_dict(c, keys) or any(searched(x, c) for x in v.values())
+    n = len(v)
+    if isinstance(c, (list, tuple)) and len(c) == n:
+        return any(searched(x, y) for x, y in zip(v, c))
+    return holds_seq(c, n) or any(searched(x, c) for x in v)
+
+
+def ref_lift_k3(fn, v, kw):
+    """what finding K3 describes: like the statement, but a sequence of another length is mapped over its elements and a dict
+    with other keys over its values when looking for the matching container (used only to recognise K3 precisely)"""
+    def by_i(c, i, n):
+        if isinstance(c, (list, tuple)):
+            return c[i] if len(c) == n else type(c)([by_i(e, i, n) for e in c])
+        return c
+
+    def by_key(c, k, keys):
+        if isinstance(c, dict):
+            return c[k] if sorted(c) == keys else {kk: by_key(e, k, keys) for kk, e in c.items()}
+        return c
+    if isinstance(v, dict):
+        keys = sorted(v)
+        return {k: ref_lift_k3(fn, v[k], {n: by_key(c, k, keys) for n, c in kw.items()}) for k in v}
+    if isinstance(v, (list, tuple)):
+        return type(v)([ref_lift_k3(fn, x, {n: by_i(c, i, len(v)) for n, c in kw.items()}) for i, x in enumerate(v)])
+    return fn(v, **kw)
+
+
 def ref_lift(fn, v, pos, kw):
     """the property statement for scalar / same-shape companions: same containers, leaves = fn(leaf, matched companions)"""
     def pick(c, step):
@@ -528,7 +593,7 @@ def ref_lift(fn, v, pos, kw):
 def clear_expected(line):
     """expected reply of a `lift call` line when all its companions are clear, else None"""
     sx = proto.parse(line)
-    if sx[0] != 'lift' or sx[1] != 'call':
+    if sx[0] != 'lift' or sx[1] not in ('call', 'callx'):
         return None
     a, kw = proto.dec(sx[3]), proto.dec(sx[4])
     kw = dict(kw)
@@ -579,7 +644,7 @@ def compare(case, i, line, ir, mr):
         return 'library function returned %s; leaf function applied to the leaf calls of the model gives %s' % (ir, exp)
     if proto.same_reply(ir, mr, numeric=False):
         return None
-    if line.startswith('(lift call '):
+    if line.startswith('(lift call ') or line.startswith('(lift callx '):
         exp = clear_expected(line)
         if exp is not None:
             if not proto.same_reply(ir, exp, numeric=False):
@@ -595,13 +660,99 @@ def nontrivial(line, reply):
     sx = proto.parse(line)
     if sx[0] == 'waiter':
         return '(A ' in line
-    if sx[1] == 'call':
+    if sx[1] in ('call', 'callx'):
         a = sx[3]
         return len(a) > 1 and isinstance(a[1], list) and len(a[1]) > 1
     if sx[1] == 'lib':
         return isinstance(sx[3], list) and len(sx[3]) > 1
     return '(L (' in line or '(T' in line
 
+
+
+# ---------------------------------------------------------------- containers the wire format cannot spell (laws only)
+
+import collections
+_NT = {n: collections.namedtuple('NT%d' % n, ['f%d' % i for i in range(n)]) for n in range(1, 6)}
+KEYMAP = {'a': 1, 'b': 'b', 'c': 3, 'd': 'd', 'k': None}      # string keys -> ints, strings and None mixed in one dict
+
+
+def exotic(rng, v, nt, keys):
+    """the same structure with (some) tuples as namedtuples (`nt`) and dict keys of several types (`keys`)"""
+    if isinstance(v, dict):
+        return {(KEYMAP[k] if keys else k): exotic(rng, x, nt, keys) for k, x in v.items()}
+    if isinstance(v, list):
+        return [exotic(rng, x, nt, keys) for x in v]
+    if isinstance(v, tuple):
+        items = [exotic(rng, x, nt, keys) for x in v]
+        if nt and 1 <= len(items) <= 5 and rng.random() < 0.7:
+            return _NT[len(items)](*items)
+        return tuple(items)
+    return v
+
+
+def exo(v):
+    """deterministic: EVERY tuple of 1..5 items becomes a namedtuple, every dict key goes through KEYMAP"""
+    if isinstance(v, dict):
+        return {KEYMAP.get(k, k): exo(x) for k, x in v.items()}
+    if isinstance(v, list):
+        return [exo(x) for x in v]
+    if isinstance(v, tuple):
+        items = [exo(x) for x in v]
+        return _NT[len(items)](*items) if 1 <= len(items) <= 5 else tuple(items)
+    return v
+
+
+_KEYBACK = {v: k for k, v in KEYMAP.items()}
+
+
+def unexo(v):
+    if isinstance(v, dict):
+        return {_KEYBACK.get(k, k): unexo(x) for k, x in v.items()}
+    if isinstance(v, list):
+        return [unexo(x) for x in v]
+    if isinstance(v, tuple):
+        return tuple(unexo(x) for x in v)
+    return v
+
+
+def same_types(v, r):
+    """the result has the container types of the looped argument (a namedtuple must come back as that namedtuple)"""
+    if isinstance(v, dict):
+        if type(r) is not type(v) or list(r) != list(v):
+            raise AssertionError('container type / keys not kept: %s -> %s' % (typed(v), typed(r)))
+        for k in v:
+            same_types(v[k], r[k])
+    elif isinstance(v, (list, tuple)):
+        if type(r) is not type(v) or len(r) != len(v):
+            raise AssertionError('container type / length not kept: %s -> %s' % (typed(v), typed(r)))
+        for x, y in zip(v, r):
+            same_types(x, y)
+
+
+def typed(v):
+    """a printable form that shows container TYPES (a namedtuple is not a tuple here) and keys of any type"""
+    if isinstance(v, dict):
+        return '{%s}' % ', '.join('%r: %s' % (k, typed(x)) for k, x in v.items())
+    if isinstance(v, (list, tuple)):
+        return '%s(%s)' % (type(v).__name__, ', '.join(typed(x) for x in v))
+    return repr(v)
+
+
+def rebuild(v, items):
+    return type(v)(*items) if hasattr(v, '_fields') else type(v)(items)
+
+
+def ref_lift_typed(fn, v, kw):
+    """the statement for scalar / same-shape keyword companions, for containers of any tuple subclass and keys of any type"""
+    def match(c):
+        if isinstance(v, dict):
+            return isinstance(c, dict) and set(c) == set(v)
+        return isinstance(c, (list, tuple)) and len(c) == len(v)
+    if isinstance(v, dict):
+        return {k: ref_lift_typed(fn, v[k], {n: (c[k] if match(c) else c) for n, c in kw.items()}) for k in v}
+    if isinstance(v, (list, tuple)):
+        return rebuild(v, [ref_lift_typed(fn, x, {n: (c[i] if match(c) else c) for n, c in kw.items()}) for i, x in enumerate(v)])
+    return fn(v, **kw)
 
 # ---------------------------------------------------------------- laws on the implementation alone
 
@@ -631,13 +782,14 @@ def laws(rng, tier, ctx):
             yield Finding('violation', dict(tag='law-pos-kw', lines=[line]),
                           'companions passed %s give %s but passed by keyword %s' % (calls[j][0], outs[j], outs[2]))
             continue
-        # (2) the statement on clear companions: same shape, leaves = f(leaf, element-wise / broadcast companions)
-        if clear_kind(v, b) and clear_kind(v, c):
-            count += 1
-            exp = 'ok ' + enc(ref_lift(named, v, [], dict(b=b, c=c)))
-            if outs[2] != exp:
-                yield Finding('violation', dict(tag='law-leaves', lines=[call_line([v], {'b': b, 'c': c})]),
-                              'lifted call gives %s, the statement requires %s' % (outs[2], exp))
+        # (2) the statement, level by level, for ANY companions: a companion that is a sequence of the length / a dict of the keys of
+        # the container being looped is matched element by element, everything else is passed on whole
+        count += 1
+        exp = 'ok ' + enc(ref_lift(named, v, [], dict(b=b, c=c)))
+        if outs[2] != exp:
+            k3 = (searched(v, b) or searched(v, c)) and outs[2] == 'ok ' + enc(ref_lift_k3(named, v, dict(b=b, c=c)))
+            yield Finding('violation', dict(tag='law-broadcast-searched-inside' if k3 else 'law-leaves', lines=[call_line([v], {'b': b, 'c': c})]),
+                          'lifted call gives %s, the statement requires %s' % (outs[2], exp))
     # (3) zipper: equal lengths zip, scalars and length-1 broadcast, ValueError iff two lengths differ and neither is 1
     for _ in range(n):
         case = gen_zip(rng, 'zipper')
@@ -672,15 +824,78 @@ def laws(rng, tier, ctx):
                               '%s(v) = %s but %s(%s(v)) = %s' % (nm, enc(once), nm, nm, enc(twice)))
     # (5) the public text / number helpers are the lifted leaf functions (shape and leaves), on same-shape / scalar companions
     for _ in range(n // 2):
-        name = rng.choice(['lower', 'upper', 'strip', 'proper', 'f12', 'as_float'])
+        name = rng.choice(['lower', 'upper', 'strip', 'proper', 'f12', 'as_float', 'split', 'replace'])
         pool_ = FLOATS if name == 'as_float' else ([1.25, 2.0, -0.5, 3, 'txt', None] if name == 'f12' else TEXTS)
         v = text_struct(rng, rng.choice([1, 2, 3, 4]), pool_, top=True)
+        kw = {}
+        if name == 'split':
+            kw = dict(sep=rng.choice([' ', ',', 'l']), dedup=rng.choice([False, True]))
+        if name == 'replace':
+            kw = dict(old=rng.choice([' ', 'o', 'l']), new=rng.choice([None, '_', '-']))
+            if isinstance(v, (list, tuple)) and v and rng.random() < 0.3:
+                kw['old'] = [rng.choice([' ', 'o', 'l']) for _ in v]      # as long as the text container: matched element by element
         count += 1
-        out = getattr(pyg_base, name)(copy.deepcopy(v))
-        exp = ref_lift(lib_leaf(name), v, [], {})
+        out = getattr(pyg_base, name)(copy.deepcopy(v), **copy.deepcopy(kw))
+        exp = ref_lift(lib_leaf(name), v, [], kw)
         if enc(out) != enc(exp):
-            yield Finding('violation', dict(tag='law-lib', lines=['(lift lib %s %s (D))' % (proto.hexs(name), enc(v))]),
+            yield Finding('violation', dict(tag='law-lib', lines=['(lift lib %s %s %s)' % (proto.hexs(name), enc(v), enc(kw))]),
                           '%s gives %s, leaf-wise application gives %s' % (name, enc(out), enc(exp)))
+    # (6) the same statement on containers the wire format cannot spell: namedtuples (a tuple subclass built from separate
+    # fields) and dicts whose keys are ints / strings / None mixed; companions scalar or of the same shape
+    for j in range(n // 2):
+        v0 = rand_struct(rng, rng.choice([1, 2, 3]), top=True)
+        nt, keys = [(True, False), (False, True), (True, True)][j % 3]
+        srng = __import__('random').Random(rng.random())
+        st = srng.getstate()
+        v = exotic(srng, v0, nt, keys)
+        b0 = same_shape(rng, v0, swap=False) if rng.random() < 0.6 else rng.choice([5, 'z', None])
+        srng.setstate(st)
+        b = exotic(srng, b0, nt, keys)
+        count += 1
+        try:
+            exp = 'ok ' + typed(ref_lift_typed(named, v, dict(b=b)))
+        except Exception as e:
+            exp = proto.err_reply(e)
+        try:
+            out = 'ok ' + typed(L(copy.deepcopy(v), b=copy.deepcopy(b)))
+        except Exception as e:
+            out = proto.err_reply(e)
+        if out != exp:
+            yield Finding('violation', dict(tag='law-leaves-namedtuple' if nt and not keys else 'law-leaves-mixed-keys' if keys and not nt else 'law-leaves-namedtuple-mixed-keys',
+                                            lines=[], values=[typed(v), typed(b)]),
+                          'lifted named(%s, b=%s) gives %s, the statement requires %s' % (typed(v), typed(b), out, exp))
+    # (7) waiter on namedtuples: the same structure with every awaitable replaced by its result
+    from pyg_base import waiter
+
+    async def _co(x):
+        await asyncio.sleep(0)
+        return x
+    for j in range(40 if tier == 'quick' else 400):
+        v0 = rand_struct(rng, rng.choice([1, 2, 3]), top=True)
+        v = exotic(rng, v0, True, False)
+
+        def with_co(x):
+            if isinstance(x, dict):
+                return {k: with_co(y) for k, y in x.items()}
+            if isinstance(x, (list, tuple)):
+                return rebuild(x, [with_co(y) for y in x])
+            return _co(x) if isinstance(x, int) else x
+        count += 1
+        w = with_co(v)
+        try:
+            out = 'ok ' + typed(asyncio.run(waiter(w)))
+        except Exception as e:
+            out = proto.err_reply(e)
+
+            def close(x):
+                for y in (x.values() if isinstance(x, dict) else x if isinstance(x, (list, tuple)) else []):
+                    close(y)
+                if asyncio.iscoroutine(x):
+                    x.close()
+            close(w)
+        if out != 'ok ' + typed(v):
+            yield Finding('violation', dict(tag='law-waiter-namedtuple', lines=[], values=[typed(v)]),
+                          'waiter(%s with its ints as coroutines) gives %s, the statement requires %s' % (typed(v), out, typed(v)))
     yield count
 
 
@@ -700,4 +915,8 @@ def _k2(f):
     return one_list(v) or (isinstance(v, tuple) and len(v) == 1 and one_list(v[0]))
 
 
-MATCHERS = {'as_tuple_list_of_one_list': _k2}
+def _k3(f):
+    return f.case.get('tag') == 'law-broadcast-searched-inside'
+
+
+MATCHERS = {'as_tuple_list_of_one_list': _k2, 'companion_of_other_shape_is_searched_inside': _k3}
